@@ -21,7 +21,10 @@ Classes ==
     matches   |-> {"absent", "undefined", "local_ok", "self_cycle", "mutual_cycle", "cycle_via_relation"},
     cons      |-> {"absent", "valid", "sigil_key", "lowercase_key", "wrong_type", "undefined_key"},
     transform |-> {"absent", "substring", "empty_source", "no_sigil_source", "lone_sigil_source", "multibyte_source",
-                   "bad_replace_regex", "bad_case", "undefined_rewriter", "huge_index", "self_cycle", "unknown_kind"},
+                   "bad_replace_regex", "bad_case", "undefined_rewriter", "huge_index", "self_cycle", "unknown_kind",
+                   \* valid transformations whose work depends on the captured text (case splitting, char indices)
+                   "convert_snake", "convert_camel", "convert_kebab", "convert_pascal", "convert_upper", "convert_capitalize",
+                   "convert_separated", "substring_negative", "replace_valid", "chain"},
     fix       |-> {"absent", "string", "object", "expand_bad_rule", "number_type", "undefined_var", "sigils_only"},
     rewriters |-> {"absent", "valid", "duplicate_ids", "no_fix", "recursive", "clash_with_util"},
     severity  |-> {"default", "off", "invalid", "error"},
